@@ -1,9 +1,40 @@
 """C08 — the runtime honours the Scheduler interface contract.
 Proof: ShuttleProofs/C08.lean (every decision of every execution of every Program under every
 scheduler).  Tie: trace-mode correspondence.  Oracle: the recording pass-through scheduler asserts the
-contract on every real call and the task-side log cross-checks `chosen_runs_next`."""
+contract on every real call and the task-side log cross-checks `chosen_runs_next`; executions that are
+stopped early (the step bound plays the scheduler's "no task" answer) must end without failure."""
 from kernelprop import *
 import oracles
+
+PROGRAM_FAILURES = ("vp-panic", "deadlock! blocked tasks", "tried to acquire a", "PoisonError", "called `Result::unwrap()` on an `Err` value: PoisonError",
+                    "exceeded max_steps bound", "test closure did not exercise")
+
+
+def o_stopped(prog, lines):
+    """`returning no task ends the execution without failure`: an execution cut short must not fail inside the runtime"""
+    bad = []
+    for e in executions(lines):
+        end = e["end"] or ""
+        if end.startswith("E fail ") and not any(k in end for k in PROGRAM_FAILURES):
+            bad.append((f"an execution that was stopped early failed inside the runtime instead of ending quietly: {end[7:160]}", "C08:stop-fails"))
+    return bad
+
+
+def stopped_streams(c, rng, tier, results):
+    per = 40 if tier == "quick" else 600
+    res = {}
+    for prof in ("chan", "chan_dl", "sem", "locks", "condvar", "stdmix", "async", "tmpsc"):
+        if prof not in gen.PROFILES:
+            continue
+        lines = []
+        n = per * 4 if prof.startswith("chan") else per
+        for l in gen.batch(rng.next(), prof, n, f"c08s_{prof}_", ("random", "rr", "pct")):
+            if l.startswith("config "):
+                l = l.replace("steps=none", "steps=cont:%d" % (2 + rng.below(9)))
+            lines.append(l)
+        res["stopped_" + prof] = run_stream("c08s_" + prof, lines, "trace")
+    bad = apply_oracle(res, o_stopped) + apply_oracle(res, oracles.o_contract)
+    return res, bad
 
 
 def run(tier, seed):
@@ -11,8 +42,10 @@ def run(tier, seed):
                            ["ShuttleProofs/C08.lean"], oracles.o_contract,
                            "offered_nonempty / strictly_ascending / unfinished / superset_runnable / subset_runnable_or_spurious, current_is_last_chosen, "
                            "yielding flag = has_yielded set only by request_yield, chosen_runs_next, none_stops_without_failure, record_exact — for all programs and schedulers; "
-                           "wrapper transparency (metrics wrapper is always in the path of Runner) is covered by the differential only")
+                           "wrapper transparency (metrics wrapper is always in the path of Runner) is covered by the differential only",
+                           extra=stopped_streams)
 
 
 def replay(path):
-    return replay_program(path, lambda res: [(w, None, s) for n in res["names"] for (w, s) in oracles.o_contract(res["progs"][n], res["impl"].get(n, []))])
+    return replay_program(path, lambda res: [(w, None, s) for n in res["names"] for (w, s) in
+                                             oracles.o_contract(res["progs"][n], res["impl"].get(n, [])) + o_stopped(res["progs"][n], res["impl"].get(n, []))])
